@@ -56,8 +56,12 @@ def gen_writer_session(rng, thorough=False, with_extra=True, version=None, fmt=N
         lasio.add_extra_dims(rng, h)
     ops = []
     nops = rng.randrange(1, 8 if not thorough else 13)
+    finished = False   # after EVLRs were written or the writer closed only write_points / close are exercised:
+    #                    a second write_evlrs is outside the property's histories (the API leaves it undefined)
     for _ in range(nops):
         r = rng.random()
+        if finished and 0.76 <= r < 0.9:
+            r = 0.5
         if r < 0.68:
             n = rng.choice([0, 0, 1, 2, 5, 17, 40])
             ops.append(("P", lasio.rand_points(rng, h, n), True))
@@ -66,8 +70,10 @@ def gen_writer_session(rng, thorough=False, with_extra=True, version=None, fmt=N
         elif r < 0.9:
             evl = laspy.vlrs.vlrlist.VLRList([lasio.rand_vlr(rng) for _ in range(rng.choice([0, 1, 2]))])
             ops.append(("E", evl))
+            finished = finished or (len(evl) > 0 and h.version.minor >= 4)
         else:
             ops.append(("C",))
+            finished = True
     ops.append(("C",))
     return {"header": h, "ops": ops}
 
